@@ -233,7 +233,10 @@ func runC08(c *Ctx) {
 		"Not decided: that pgx decodes a given byte string to the right Go value."
 	R.Trusted = []string{"go/types + go/ssa"}
 
-	rp := c.mustMethod("C08.R1", "wire", "Session", "readParameters")
+	rp, _ := c.bindDecoders()
+	if rp == nil {
+		R.Fail("C08.R1", "anchor:parameter-decoder", "-", "handleBind calls a function that decodes the message's parameters ([]Parameter)", "no callee of handleBind returns []Parameter")
+	}
 	np := c.mustFunc("C08.R1", "wire", "NewParameter")
 	if rp != nil && np != nil {
 		R.Analysed(fname(rp))
@@ -330,16 +333,41 @@ func runC08(c *Ctx) {
 	}
 }
 
-func (c *Ctx) c08ReadParameters(rp, np *ssa.Function) {
-	R := c.R
-	// GetUint16 calls in dominance order: [format count, code (loop), value count]
-	var u16 []*ssa.Call
-	for _, ci := range core.Calls(rp) {
-		if call, ok := ci.(*ssa.Call); ok && isReaderMethod(call, "GetUint16") {
-			u16 = append(u16, call)
+// bindDecoders identifies, by role, the functions that decode a Bind message's parameters and result
+// formats: the callees of handleBind whose first result is []Parameter / []FormatCode.
+func (c *Ctx) bindDecoders() (params, formats *ssa.Function) {
+	hb := c.P.Method("wire", "Session", "handleBind")
+	if hb == nil {
+		return nil, nil
+	}
+	for _, ci := range core.Calls(hb) {
+		f := core.StaticCallee(ci)
+		if f == nil || !c.P.InPkg(f, "wire") || f.Signature.Results().Len() < 1 {
+			continue
+		}
+		if sl, ok := f.Signature.Results().At(0).Type().Underlying().(*types.Slice); ok {
+			switch {
+			case core.IsNamed(sl.Elem(), pkWire, "Parameter"):
+				params = f
+			case core.IsNamed(sl.Elem(), pkWire, "FormatCode"):
+				formats = f
+			}
 		}
 	}
-	loops := core.Loops(rp)
+	return
+}
+
+// fmtCtx describes the format-code decoding locals of one function.
+type fmtCtx struct {
+	fn      *ssa.Function
+	count   ssa.Value       // number of format codes (GetUint16 outside the loop, sizes the slice)
+	code    ssa.Value       // the code read per iteration
+	formats *ssa.MakeSlice  // make([]FormatCode, count)
+}
+
+func (c *Ctx) fmtCtxOf(fn *ssa.Function) *fmtCtx {
+	fc := &fmtCtx{fn: fn}
+	loops := core.Loops(fn)
 	inLoop := func(in ssa.Instruction) bool {
 		for _, l := range loops {
 			if l.Body[in.Block()] {
@@ -348,53 +376,176 @@ func (c *Ctx) c08ReadParameters(rp, np *ssa.Function) {
 		}
 		return false
 	}
-	var fmtCount, valCount, code ssa.Value
-	for _, call := range u16 {
-		switch {
-		case inLoop(call):
-			code = resultOf(call, 0)
-		case fmtCount == nil:
-			fmtCount = resultOf(call, 0)
-		default:
-			valCount = resultOf(call, 0)
+	for _, b := range fn.Blocks {
+		for _, in := range b.Instrs {
+			if ms, ok := in.(*ssa.MakeSlice); ok {
+				if sl, ok := ms.Type().Underlying().(*types.Slice); ok && core.IsNamed(sl.Elem(), pkWire, "FormatCode") {
+					fc.formats = ms
+					fc.count = core.StripConv(ms.Len)
+				}
+			}
 		}
 	}
-	if fmtCount == nil || valCount == nil || code == nil {
-		R.Fail("C08.R1", "readParameters:shape", c.atFn(rp), "readParameters reads a code count, the codes, a value count and the values", "the three GetUint16 reads (count, code in loop, count) were not found")
+	if fc.formats == nil {
+		return fc
+	}
+	// the code read in the loop that fills the slice
+	for _, r := range core.Referrers(fc.formats) {
+		if ia, ok := r.(*ssa.IndexAddr); ok {
+			for _, r2 := range core.Referrers(ia) {
+				if st, ok := r2.(*ssa.Store); ok && inLoop(st) {
+					fc.code = core.StripConv(st.Val)
+				}
+			}
+		}
+	}
+	return fc
+}
+
+// classifyFormat classifies the possible sources of a parameter's format value.
+func (c *Ctx) classifyFormat(fn *ssa.Function, v ssa.Value, kinds map[string]bool, depth int) {
+	if depth > 3 {
+		kinds["other"] = true
 		return
 	}
-	// the formats and parameters slices
-	var formats, params *ssa.MakeSlice
+	fc := c.fmtCtxOf(fn)
+	var ls []ssa.Value
+	leaves(v, map[ssa.Value]bool{}, &ls)
+	for _, l := range ls {
+		switch x := l.(type) {
+		case *ssa.Const:
+			if k, ok := core.ConstInt(x); ok && k == 0 {
+				kinds["text-default"] = true
+			} else {
+				kinds["other-const"] = true
+			}
+		case *ssa.Convert:
+			if fc.code != nil && x.X == fc.code && fc.count != nil && anyDominates(constEqEdges(fc.count, 1, true), x.Block()) {
+				kinds["single-code"] = true
+			} else {
+				kinds["unguarded-code"] = true
+			}
+		case *ssa.UnOp:
+			ia, ok := x.X.(*ssa.IndexAddr)
+			if ok && c.isFormatSlice(fn, ia.X) && isInduction(ia.Index) && anyDominates(gtEdges(fn, isLenOfVal(ia.X), isVal(ia.Index)), x.Block()) {
+				kinds["positional"] = true
+			} else {
+				kinds["unguarded-index"] = true
+			}
+		case *ssa.Extract:
+			// a value returned by a decoding helper (the default format computed there)
+			call, ok := x.Tuple.(*ssa.Call)
+			h := (*ssa.Function)(nil)
+			if ok {
+				h = core.StaticCallee(call)
+			}
+			if h == nil || !c.P.InPkg(h, "wire") || len(h.Blocks) == 0 {
+				kinds["other"] = true
+				continue
+			}
+			for _, r := range returns(h) {
+				cls := c.Err().Classify(errOperand(r), r.Block())
+				if !cls.MayBeNil() {
+					continue // failing returns: the value is not used
+				}
+				c.classifyFormat(h, r.Results[x.Index], kinds, depth+1)
+			}
+		default:
+			kinds["other"] = true
+		}
+	}
+}
+
+// isFormatSlice: v is the format-code slice decoded from this message: the make in fn, or the slice result
+// of a helper whose successful returns yield its own make.
+func (c *Ctx) isFormatSlice(fn *ssa.Function, v ssa.Value) bool {
+	if fc := c.fmtCtxOf(fn); fc.formats != nil && v == ssa.Value(fc.formats) {
+		return true
+	}
+	if ex, ok := v.(*ssa.Extract); ok {
+		if call, ok := ex.Tuple.(*ssa.Call); ok {
+			if h := core.StaticCallee(call); h != nil && c.P.InPkg(h, "wire") {
+				hc := c.fmtCtxOf(h)
+				if hc.formats == nil {
+					return false
+				}
+				for _, r := range returns(h) {
+					cls := c.Err().Classify(errOperand(r), r.Block())
+					if cls.MayBeNil() && r.Results[ex.Index] != ssa.Value(hc.formats) {
+						return false
+					}
+				}
+				return true
+			}
+		}
+	}
+	return false
+}
+
+func (c *Ctx) c08ReadParameters(rp, np *ssa.Function) {
+	R := c.R
+	// the per-Bind parameter slice
+	var params *ssa.MakeSlice
 	for _, b := range rp.Blocks {
 		for _, in := range b.Instrs {
 			if ms, ok := in.(*ssa.MakeSlice); ok {
-				switch {
-				case core.StripConv(ms.Len) == fmtCount:
-					formats = ms
-				case core.StripConv(ms.Len) == valCount:
+				if sl, ok := ms.Type().Underlying().(*types.Slice); ok && core.IsNamed(sl.Elem(), pkWire, "Parameter") {
 					params = ms
 				}
 			}
 		}
 	}
-	R.Check(params != nil, "C08.R1", "readParameters:fresh-slice-of-declared-count", c.atFn(rp), "the parameters go into a slice allocated for this Bind with the declared count", "make([]Parameter, value count)", "no make([]Parameter, n) sized by the message's value count: the slice may be shared or mis-sized")
-	if formats == nil {
-		R.Fail("C08.R3", "readParameters:formats-slice", c.atFn(rp), "the parameter format codes are read into a slice of the declared length", "no make([]FormatCode, code count)")
-		return
-	}
-	// stores into formats: element i = the code read in iteration i
-	for _, r := range core.Referrers(formats) {
-		ia, ok := r.(*ssa.IndexAddr)
-		if !ok {
-			continue
-		}
-		for _, r2 := range core.Referrers(ia) {
-			if st, ok := r2.(*ssa.Store); ok {
-				R.Check(core.StripConv(st.Val) == code && isInduction(ia.Index), "C08.R3", "readParameters:codes-in-order", c.at(st), "format code i is stored at position i", "formats[i] = code read in iteration i", "the stored format code or its position is not the iteration's")
+	okCount := false
+	if params != nil {
+		if ex, ok := core.StripConv(params.Len).(*ssa.Extract); ok {
+			if call, ok := ex.Tuple.(*ssa.Call); ok && isReaderMethod(call, "GetUint16") {
+				okCount = true
 			}
 		}
 	}
-	// each NewParameter call
+	R.Check(params != nil && okCount, "C08.R1", "readParameters:fresh-slice-of-declared-count", c.atFn(rp), "the parameters go into a slice allocated for this Bind with the declared count", "make([]Parameter, value count read from the message)", "no make([]Parameter, n) sized by the message's value count: the slice may be shared or mis-sized")
+	// format codes are stored in order (in this function or in the helper that decodes them)
+	nFmtStores := 0
+	cands := []*ssa.Function{rp}
+	for _, ci := range core.Calls(rp) {
+		if h := core.StaticCallee(ci); h != nil && c.P.InPkg(h, "wire") {
+			cands = append(cands, h)
+		}
+	}
+	for _, fn := range cands {
+		fc := c.fmtCtxOf(fn)
+		if fc.formats == nil {
+			continue
+		}
+		okCnt := false
+		if ex, ok := fc.count.(*ssa.Extract); ok {
+			if call, ok := ex.Tuple.(*ssa.Call); ok && isReaderMethod(call, "GetUint16") {
+				okCnt = true
+			}
+		}
+		R.Check(okCnt, "C08.R3", "readParameters:formats-slice", c.at(fc.formats), "the parameter format codes are read into a slice of the declared length", "make([]FormatCode, code count read from the message)", "the format slice is not sized by the message's code count")
+		for _, r := range core.Referrers(fc.formats) {
+			ia, ok := r.(*ssa.IndexAddr)
+			if !ok {
+				continue
+			}
+			for _, r2 := range core.Referrers(ia) {
+				if st, ok := r2.(*ssa.Store); ok {
+					nFmtStores++
+					okVal := false
+					if ex, ok := core.StripConv(st.Val).(*ssa.Extract); ok {
+						if call, ok := ex.Tuple.(*ssa.Call); ok && isReaderMethod(call, "GetUint16") && call.Block().Dominates(st.Block()) {
+							okVal = true
+						}
+					}
+					R.Check(okVal && isInduction(ia.Index), "C08.R3", "readParameters:codes-in-order", c.at(st), "format code i is stored at position i", "formats[i] = code read in iteration i", "the stored format code or its position is not the iteration's")
+				}
+			}
+		}
+	}
+	R.Floor("C08.R3", "stores into the parameter format slice", nFmtStores, 1)
+
+	// each value: a length, then that many bytes
 	var getBytes *ssa.Call
 	var length ssa.Value
 	for _, ci := range core.Calls(rp) {
@@ -415,16 +566,56 @@ func (c *Ctx) c08ReadParameters(rp, np *ssa.Function) {
 	sentinelNot := constEqEdges(length, 0xFFFFFFFF, false)
 	sentinelIs := constEqEdges(length, 0xFFFFFFFF, true)
 	R.Check(len(sentinelIs) > 0 && anyDominates(sentinelNot, getBytes.Block()), "C08.R2", "readParameters:null-sentinel", c.at(getBytes), "a declared length of -1 (0xFFFFFFFF) is recognised by equality and skips the value read", "GetBytes is dominated by the length != 0xFFFFFFFF edge", "the value read is not guarded by an equality test against the -1 sentinel (NULL becomes a read error, or other lengths are mistaken for NULL)")
+	onEdge := func(es []edge, pred, to *ssa.BasicBlock) bool {
+		if anyDominates(es, pred) {
+			return true
+		}
+		for _, e := range es {
+			if e.from == pred && e.to() == to {
+				return true
+			}
+		}
+		return false
+	}
 	nNew := 0
 	for _, ci := range callsIn(rp, calleeIs(np)) {
 		call := ci.(*ssa.Call)
 		nNew++
 		val := call.Call.Args[2]
-		onNull := anyDominates(sentinelIs, call.Block())
-		if onNull {
-			R.Check(core.IsNilConst(val), "C08.R2", "readParameters:null-is-nil", c.at(call), "SQL NULL reaches the handler as a nil value (distinct from the empty value)", "NewParameter(.., nil) on the sentinel edge", "the NULL edge does not build the parameter with a nil value")
+		gbVal, gbOK := resultOf(getBytes, 0), nilEdges(resultOf(getBytes, 1), true)
+		// the value is nil exactly on the NULL (sentinel) edge and the wire bytes otherwise
+		okNull, okBytes, bad := false, false, ""
+		check := func(v ssa.Value, pred, to *ssa.BasicBlock) {
+			switch {
+			case core.IsNilConst(v):
+				if onEdge(sentinelIs, pred, to) {
+					okNull = true
+				} else {
+					bad = "a nil value off the NULL edge"
+				}
+			case v == gbVal:
+				if onEdge(gbOK, pred, to) {
+					okBytes = true
+				} else {
+					bad = "the GetBytes result without its error tested"
+				}
+			default:
+				bad = "a value that is neither nil nor the GetBytes result"
+			}
+		}
+		if ph, isPhi := val.(*ssa.Phi); isPhi {
+			for i, e := range ph.Edges {
+				check(e, ph.Block().Preds[i], ph.Block())
+			}
 		} else {
-			R.Check(val == resultOf(getBytes, 0) && anyDominates(nilEdges(resultOf(getBytes, 1), true), call.Block()), "C08.R1", "readParameters:value-is-wire-bytes", c.at(call), "the parameter value is byte-identical to what was sent (the GetBytes result itself, read successfully)", "argument is result #0 of GetBytes on its err == nil edge", "the value handed to NewParameter is not the GetBytes result itself")
+			check(val, call.Block(), call.Block())
+		}
+		if core.IsNilConst(val) || (bad == "" && okNull && !okBytes) {
+			R.Check(bad == "" && okNull, "C08.R2", "readParameters:null-is-nil", c.at(call), "SQL NULL reaches the handler as a nil value (distinct from the empty value)", "NewParameter(.., nil) on the sentinel edge", "the NULL edge does not build the parameter with a nil value: "+bad)
+		} else if bad == "" && okBytes && !okNull {
+			R.OK("C08.R1", "readParameters:value-is-wire-bytes", c.at(call), "the parameter value is byte-identical to what was sent (the GetBytes result itself, read successfully)", "argument is result #0 of GetBytes on its err == nil edge")
+		} else {
+			R.Check(bad == "" && okNull && okBytes, "C08.R1", "readParameters:value-is-wire-bytes-or-nil", c.at(call), "the parameter value is the GetBytes result itself (read successfully), or nil exactly on the NULL edge", "phi{nil on the sentinel edge, GetBytes result on its err == nil edge}", "the value handed to NewParameter is "+bad)
 		}
 		// stored at the loop index into params
 		stored := false
@@ -436,39 +627,12 @@ func (c *Ctx) c08ReadParameters(rp, np *ssa.Function) {
 			}
 		}
 		R.Check(stored, "C08.R1", "readParameters:position", c.at(call), "parameter i is stored at position i", "parameters[i] = NewParameter(..) with the loop's induction variable", "the parameter is not stored at the loop index of the parameters slice")
-		// format sources
-		var ls []ssa.Value
-		leaves(call.Call.Args[1], map[ssa.Value]bool{}, &ls)
 		kinds := map[string]bool{}
-		for _, l := range ls {
-			switch x := l.(type) {
-			case *ssa.Const:
-				if k, ok := core.ConstInt(x); ok && k == 0 {
-					kinds["text-default"] = true
-				} else {
-					kinds["other-const"] = true
-				}
-			case *ssa.Convert:
-				if x.X == code && anyDominates(constEqEdges(fmtCount, 1, true), x.Block()) {
-					kinds["single-code"] = true
-				} else {
-					kinds["unguarded-code"] = true
-				}
-			case *ssa.UnOp:
-				ia, ok := x.X.(*ssa.IndexAddr)
-				if ok && ia.X == ssa.Value(formats) && isInduction(ia.Index) && anyDominates(gtEdges(rp, isLenOfVal(formats), isVal(ia.Index)), x.Block()) {
-					kinds["positional"] = true
-				} else {
-					kinds["unguarded-index"] = true
-				}
-			default:
-				kinds["other"] = true
-			}
-		}
+		c.classifyFormat(rp, call.Call.Args[1], kinds, 0)
 		got := strings.Join(sortedKeys(kinds), ",")
 		R.Check(got == "positional,single-code,text-default", "C08.R3", "readParameters:format-rule", c.at(call), "the format of parameter i is: text if no codes, the single code if one was sent, codes[i] if i < len(codes)", "format sources {"+got+"}", "format sources are {"+got+"}, expected {positional,single-code,text-default}")
 	}
-	R.Floor("C08.R1", "NewParameter calls in readParameters", nNew, 2)
+	R.Floor("C08.R1", "NewParameter calls in readParameters", nNew, 1)
 	// the sentinel rule for the binary COPY reader (sibling)
 	if br := c.P.Method("wire", "BinaryCopyReader", "Read"); br != nil {
 		var gb *ssa.Call
@@ -519,7 +683,10 @@ func isInduction(v ssa.Value) bool {
 
 func (c *Ctx) c08ResultFormats() {
 	R := c.R
-	rc := c.mustMethod("C08.R4", "wire", "Session", "readColumnTypes")
+	_, rc := c.bindDecoders()
+	if rc == nil {
+		R.Fail("C08.R4", "anchor:result-format-decoder", "-", "handleBind calls a function that decodes the message's result formats ([]FormatCode)", "no callee of handleBind returns []FormatCode")
+	}
 	if rc != nil {
 		R.Analysed(fname(rc))
 		var count, code ssa.Value
